@@ -215,10 +215,37 @@ def make_equal(doc, acc_c, kind_c, max_ti, twin=False):
                 check(text_of(c) == text_of(a) or o is c, what, 'unclaim changed the text')
                 if o is c:
                     return   # the comment left the span of the model itself: texts differ, nothing to say about ownership
+            elif kind == 4:
+                # same structure, different text between tokens: spacing at a symbolic place (incl. the tail of the model)
+                subs = [x for _, x in walk(c) if hasattr(x, 'spacing_before') and x.token_store is c.token_store]
+                if not subs:
+                    return
+                if ti // 2 >= len(subs):
+                    return
+                x = subs[-(1 + ti // 2)]     # from the end: the tail of the model is where a prefix comparison would not look
+                before_text = text_of(c)
+                if ti % 2:
+                    x.spacing_after = x.spacing_after + '\n\n'
+                else:
+                    x.spacing_before = x.spacing_before + ' '
+                edit = 'spacing next to ' + type(x).__name__
+                if text_of(c) == before_text:
+                    return      # the spacing lies outside the copied model's span
             else:
-                # a different type with the same text: compare with a token / other model
+                # a different type with the same text
                 check(not (a == a.first_token) and not (a.first_token == a), what, 'a tree model equals a token')
                 check(not (a == text_of(a)), what, 'a model equals its text')
+                toks = [t for t in a.tokens]
+                t = toks[ti % len(toks)]
+                for cls2 in M.TOKEN_MODELS.values():
+                    if cls2 is type(t):
+                        continue
+                    try:
+                        o = cls2.from_raw_text(t.raw_text)
+                    except Exception:
+                        continue
+                    check(not (t == o) and not (o == t), what, 'tokens of different types compare equal', docenv.R_(t), docenv.R_(o))
+                    check(t != o, what, '!= disagrees with == for tokens of different types')
                 return
             eq1, eq2 = (c == a), (a == c)
             check(eq1 == eq2, what, 'equality is not symmetric after', edit)
@@ -345,7 +372,7 @@ def _reg(name_fn, tiers, timeout, family, bounds, twin=False, cost=None):
 
 Q, T = ('quick', 'thorough'), ('thorough',)
 KINDS = ['one token text', 'one structural edit', 'one spacing edit', 'in-place arithmetic reading the other side']
-EKINDS = ['one token text', 'one child removed/added', 'comment ownership', 'other type']
+EKINDS = ['one token text', 'one child removed/added', 'comment ownership', 'other type with the same text (every token class)', 'spacing between tokens']
 for _d in DOCS:
     for _acc in (1, 0):
         for _kind in range(4):
@@ -355,7 +382,7 @@ for _d in DOCS:
                  'document %r, auto_claim_comments=%d: every tree model at any depth x %s (12 places) on copy or original' % (_d, _acc, KINDS[_kind]), cost=100)
             _reg(make_copy(_d, _acc, _kind, 47), {'C11': T}, 1800, 'copy',
                  'document %r, auto_claim_comments=%d: every tree model at any depth x %s (48 places) on copy or original' % (_d, _acc, KINDS[_kind]))
-        for _kind in range(4):
+        for _kind in range(5):
             _reg(make_equal(_d, _acc, _kind, 11), {'C20': Q}, 900, 'equal',
                  'document %r, auto_claim_comments=%d: every tree model x perturbation: %s (12 places)' % (_d, _acc, EKINDS[_kind]), cost=100)
             _reg(make_equal(_d, _acc, _kind, 47), {'C20': T}, 1800, 'equal',
